@@ -732,6 +732,7 @@ class TimeExceeded (icmp_base):
     if buf_len is None: buf_len = len(raw)
 
     try:
+      if buf_len - offset < 4: raise TruncatedException()
       offset += 4 # Unused
 
       o.next = raw[offset:buf_len]
@@ -739,7 +740,8 @@ class TimeExceeded (icmp_base):
 
       o.parsed = True
     except TruncatedException:
-      pass
+      o.parsed = False
+      offset = buf_len
 
     o.raw = raw[_offset:offset]
     o.prev = prev
@@ -747,6 +749,9 @@ class TimeExceeded (icmp_base):
 
   def hdr (self, payload):
     return struct.pack('!I', 0) # Unused
+
+  def pack (self):
+    return packet_base.pack(self)
 
 
 class PacketTooBig (icmp_base):
@@ -777,7 +782,8 @@ class PacketTooBig (icmp_base):
     if buf_len is None: buf_len = len(raw)
 
     try:
-      o.mtu = struct.unpack_from("!I", raw, offset)
+      if buf_len - offset < 4: raise TruncatedException()
+      o.mtu = struct.unpack_from("!I", raw, offset)[0]
       offset += 4
 
       o.next = raw[offset:buf_len]
@@ -785,7 +791,8 @@ class PacketTooBig (icmp_base):
 
       o.parsed = True
     except TruncatedException:
-      pass
+      o.parsed = False
+      offset = buf_len
 
     o.raw = raw[_offset:offset]
     o.prev = prev
@@ -793,6 +800,9 @@ class PacketTooBig (icmp_base):
 
   def hdr (self, payload):
     return struct.pack('!I', self.mtu)
+
+  def pack (self):
+    return packet_base.pack(self)
 
 
 class unpack_new_adapter (object):
